@@ -27,8 +27,6 @@ theorem get_miss_reports_landing (t : Tree) (k : Key) (v : Val) (h : Inv t) (hk 
       ∃ L l, findLayer t r.pfx = some L ∧ L.leaves[r.idx]? = some l ∧ r.vins = l.vins ∧ r.vsplit = l.vsplit :=
   Yak.Tree.get_miss_reports_landing t k v h hk
 
-/- OPEN: not yet proved
-
 /-- the collected set is never empty for an existing storage (valid arguments). -/
 theorem scan_nodes_nonempty (t : Tree) (lk : Key) (le : EP) (rk : Key) (re : EP) (max : Nat) (r2l : Bool)
     (h : Inv t) (ha : scanArgsOk lk le rk re max r2l = true) :
@@ -41,6 +39,8 @@ def covered (lk : Key) (le : EP) (rk : Key) (re : EP) (max : Nat) (res : List (K
   (if max != 0 && res.length ≥ max then
      (match res.getLast? with | some (last, _) => !lexLt last k | none => false)
    else true)
+
+/- OPEN: not yet proved
 
 /-- forward scans: every absent key of the covered interval lands in a leaf the scan recorded,
     and the recorded counters are that leaf's current ones — so inserting it makes the pair stale
